@@ -186,7 +186,7 @@ class Repo:
         def visit(body, cls: Optional[ClassInfo], parent_fn: Optional[FuncInfo], prefix: str):
             for node in body:
                 if isinstance(node, ast.ClassDef):
-                    ci = ClassInfo(node.name, mod, node, [ap(b) or ast.unparse(b) for b in node.bases])
+                    ci = ClassInfo(node.name, mod, node, [ap(b.value if isinstance(b, ast.Subscript) else b) or ast.unparse(b) for b in node.bases])
                     self.classes.setdefault(node.name, []).append(ci)
                     visit(node.body, ci, None, prefix + node.name + ".")
                 elif isinstance(node, FUNC_TYPES):
